@@ -307,6 +307,16 @@ theorem funnel_total_wsgi_url (u : UrlKey) (k : PreKey) (hav : facts10.pre k ≠
 example : facts10.url ⟨.plain, .slash, .empty, .absent, false⟩ = .proceed := by decide +kernel
 example : ∃ d, facts10.href ⟨false, .cycle⟩ = d ∧ d.good = true := ⟨_, rfl, href_good facts10 facts10_hrefs _⟩
 
+/-! ### the fault document is always written -/
+
+/-- for every output protocol, through ServerBase and WsgiApplication, whatever characters the text of the fault quotes from the
+    request (control characters, NUL, lone surrogates, characters outside the BMP, noncharacters): the fault document is written,
+    no exception leaves get_out_string / handle_error (measured per row by raising such a fault at the deserialisation stage) -/
+theorem facts10_fault_documents : faultDocTableOk facts10 = true := by decide +kernel
+
+theorem fault_document_always_written (k : FaultDocKey) : facts10.faultDoc k = .proceed :=
+  faultDoc_written facts10 facts10_fault_documents k
+
 /-! ### the leaf parsers -/
 
 /-- the leaf parsers of the shared vocabulary (integers, booleans, strings, date, time, dateTime, duration, the three
